@@ -11,7 +11,7 @@ from ..model import call_many
 from ..pool import run_cases
 
 THEOREMS = ["C17_sites", "C17_import_time", "C17_input_eval_reaches_eval", "C17_nonvacuous",
-            "C17_phase0_alphabet", "C17_allowed_excludes", "C17_phase0_example"]
+            "C17_phase0_alphabet", "C17_allowed_excludes", "C17_phase0_example", "C17_find_spec_calls"]
 
 SAFE_RESULT = set("abcdefghijklmnopqrstuvwxyzABCDEFGHIJKLMNOPQRSTUVWXYZ0123456789 `'\"/|.,;[]")
 
